@@ -177,7 +177,7 @@ STATS = [
 
 def run(ctx: Ctx):
   st = {}
-  for r in (r1, r2, r3, r4, r5, r6, r7):
+  for r in (r1, r2, r3, r4, r5, r6, r7, r9):
     ctx.guard(r, st)
   from mlmverif.props import c11
   from mlmverif.props._agg import model as aggmodel
@@ -834,12 +834,73 @@ def r7(ctx: Ctx, st):
   ctx.floor(rule, 1, n)
 
 
+def r9(ctx: Ctx, st):
+  rule = 'R-C07-9'
+  ctx.rule(rule, 'the zero-denominator convention itself: the reference formulas'
+           ' treat safe_divide as "a / b, and 0 exactly where b == 0"; its'
+           ' definition divides under the mask `b != 0` (exact comparison with'
+           ' zero, no tolerance) into an output initialised with zeros — a'
+           ' tolerance (np.isclose) would zero every ratio whose denominator'
+           ' is merely small')
+  fi = ctx.repo.func('utils.math_utils', 'safe_divide')
+  ps = fi.params()
+  if len(ps) < 2:
+    raise AnalysisError(f'{rule}: safe_divide{tuple(ps)}')
+  num, den = ps[0], ps[1]
+  local = {x.targets[0].id: x.value for x in walk_no_nested(fi.node) if isinstance(x, ast.Assign)
+           and len(x.targets) == 1 and isinstance(x.targets[0], ast.Name)}
+  divs = [c for c in ast.walk(fi.node) if isinstance(c, ast.Call) and unparse(c.func) in (
+      'np.divide', 'numpy.divide', 'np.true_divide')]
+  if len(divs) != 1:
+    raise AnalysisError(f'{rule}: expected one np.divide in safe_divide, found {len(divs)}')
+  c = divs[0]
+  from mlmverif.core import kwarg
+  w = kwarg(c, 'where')
+  out = kwarg(c, 'out')
+  while isinstance(w, ast.Name) and w.id in local:
+    w = local[w.id]
+  while isinstance(out, ast.Name) and out.id in local:
+    out = local[out.id]
+  def exact_nonzero(e):
+    if isinstance(e, ast.Compare) and len(e.ops) == 1 and isinstance(e.ops[0], ast.NotEq):
+      l, r_ = e.left, e.comparators[0]
+      return (unparse(l) == den and isinstance(r_, ast.Constant) and r_.value == 0) or (
+          unparse(r_) == den and isinstance(l, ast.Constant) and l.value == 0)
+    if isinstance(e, ast.Call) and unparse(e.func) in ('np.not_equal', 'numpy.not_equal') and len(e.args) == 2:
+      a0, a1 = e.args
+      return unparse(a0) == den and isinstance(a1, ast.Constant) and a1.value == 0
+    if isinstance(e, ast.UnaryOp) and isinstance(e.op, ast.Invert) and isinstance(e.operand, ast.Compare) and (
+        len(e.operand.ops) == 1 and isinstance(e.operand.ops[0], ast.Eq)):
+      l, r_ = e.operand.left, e.operand.comparators[0]
+      return unparse(l) == den and isinstance(r_, ast.Constant) and r_.value == 0
+    return False
+  args_ok = len(c.args) >= 2 and unparse(c.args[0]) == num and unparse(c.args[1]) == den
+  zeros = isinstance(out, ast.Call) and unparse(out.func).split('.')[-1] in ('zeros_like', 'zeros')
+  if w is not None and exact_nonzero(w) and zeros and args_ok:
+    ctx.ok(rule, fi, f'np.divide({num}, {den}, out=zeros, where={unparse(w)})', c)
+  else:
+    ctx.fail(rule, fi, f'safe_divide: np.divide({num}, {den}, out=zeros, where=({den} != 0))',
+             f'safe_divide divides under `where={unparse(w) if w is not None else None}` into'
+             f' `out={unparse(out)[:40] if out is not None else None}`: this is not "0 exactly'
+             ' where the denominator is 0" — every rate, likelihood ratio and f-score'
+             ' built on it returns 0 (or garbage) for small but non-zero'
+             ' denominators', node=c)
+  ctx.floor(rule, 1)
+
+
 from mlmverif.selfcheck import B, OK  # noqa: E402
 
 _C = 'aggregates/classification.py'
 _T = 'aggregates/retrieval.py'
 _MC = 'metrics/classification.py'
 VARIANTS = [
+    B('safe-divide-with-tolerance', 'utils/math_utils.py',
+      'where=(b != 0)', 'where=~np.isclose(b, 0)', 'R-C07-9'),
+    B('safe-divide-uninitialised-out', 'utils/math_utils.py',
+      'out=np.zeros_like(a, dtype=agg_types.DefaultDType)', 'out=np.empty_like(a, dtype=agg_types.DefaultDType)', 'R-C07-9'),
+    OK('safe-divide-mask-in-local', 'utils/math_utils.py',
+       '  result = np.divide(\n      a, b, out=np.zeros_like(a, dtype=agg_types.DefaultDType), where=(b != 0)\n  )',
+       '  nonzero = b != 0\n  result = np.divide(\n      a, b, out=np.zeros_like(a, dtype=agg_types.DefaultDType), where=nonzero\n  )'),
     B('thresholds-not-sorted', 'aggregates/retrieval.py',
       '    thresholds = np.asarray(sorted(self.thresholds), dtype=np.float32)',
       '    thresholds = np.asarray(self.thresholds, dtype=np.float32).reshape(-1)', 'R-C07-7'),
